@@ -4,11 +4,12 @@ EXTENDS SpecGen, TraceBase
 DevOas30 == {"OpenApi30Invalid"}
 DevDocNull == {"DocstringNullType"}
 TraceInit == tid \in 1..NTraces /\ l = 1 /\ InitWith(Traces[tid].scn.scn)
-Obs(e) == [fn |-> e.fn, ep |-> e.ep, name |-> e.name, result |-> e.result, reqname |-> e.reqname, errors |-> SetOf(e.errors), tags |-> e.tags, cpref |-> e.cpref, meta |-> MetaVerdict(e)]
+Obs(e) == [fn |-> e.fn, ep |-> e.ep, name |-> e.name, result |-> e.result, reqname |-> e.reqname, errors |-> SetOf(e.errors), tags |-> e.tags, cpref |-> e.cpref,
+           meta |-> MetaVerdictG(e, Len(docs) + 1)]
 \* one event per generation: the document projected onto its entries, plus the judgements TLC cannot derive (DESIGN 3.4):
 \* JSON-encodable, valid against the official meta-schema, no dangling $ref, user's objects deep-equal before / after
 TGenerate == /\ IsEvent("Generate") /\ Generate
-             /\ LET want == DocOfSub(heap, Sub(Len(docs) + 1)) IN
+             /\ LET want == DocAt(heap, Len(docs) + 1) IN
                   {Obs(E.entries[k]) : k \in DOMAIN E.entries} = want /\ Len(E.entries) = Cardinality(want)
              \* pure function of the registry: the document equals the one a freshly built, identically configured specification
              \* object generates for the same registry (whatever this object generated before)
